@@ -676,7 +676,9 @@ impl Ctx {
         // several profiles of one property may run in sequence: merge if asked to
         let path = evidence_path(&self.id);
         let merged = merge_evidence(&path, ev);
-        let _ = std::fs::create_dir_all(format!("{}/evidence", verif_root()));
+        if let Some(parent) = std::path::Path::new(&path).parent() {
+            let _ = std::fs::create_dir_all(parent);
+        }
         std::fs::write(&path, serde_json::to_string_pretty(&merged).unwrap())
             .expect("write evidence");
         if !self.violations.is_empty() {
@@ -768,6 +770,11 @@ pub fn verif_root() -> String {
 }
 
 pub fn evidence_path(id: &str) -> String {
+    // mutation trials redirect their evidence so that the committed evidence always describes
+    // a run on the unchanged tree
+    if let Ok(d) = std::env::var("VERIF_EVIDENCE_DIR") {
+        return format!("{d}/{id}.json");
+    }
     format!("{}/evidence/{}.json", verif_root(), id)
 }
 
